@@ -107,6 +107,30 @@ MergeSnap(r) ==
 \* behaviour (property C19), i.e. every reachable state is a crash point.
 Persist(r) == UNCHANGED vars
 
+(***************************************************************************)
+(* Scenario configs start from the state reached by a fixed script (a      *)
+(* sequence of the same actions, written as in hist) and explore freely    *)
+(* from there: witness histories of the known findings and shapes that     *)
+(* need more actors/ops than the exhaustive configs reach.  DoAct is the   *)
+(* functional rendering of the actions above.                              *)
+(***************************************************************************)
+DoAct(x, a) ==
+  LET r == a[2] IN
+  CASE a[1] = "gen" ->
+         LET op == MkOp(x.st[r], r, a[3]) IN
+         [x EXCEPT !.ops = Append(@, [op |-> op, author |-> r, deps |-> x.know[r], cmd |-> a[3]]),
+                   !.st[r] = Apply(@, op),
+                   !.know[r] = @ \cup {Len(x.ops) + 1}]
+    [] a[1] \in {"dlv", "dup"} -> [x EXCEPT !.st[r] = Apply(@, x.ops[a[3]].op), !.know[r] = @ \cup {a[3]}]
+    [] a[1] = "mrg"     -> [x EXCEPT !.st[r] = Merge(@, x.st[a[3]]), !.know[r] = @ \cup x.know[a[3]]]
+    [] a[1] = "save"    -> [x EXCEPT !.snap = <<x.st[r], x.know[r]>>]
+    [] a[1] = "mrgsnap" -> [x EXCEPT !.st[r] = Merge(@, x.snap[1]), !.know[r] = @ \cup x.snap[2]]
+RECURSIVE RunScript(_, _)
+RunScript(x, s) == IF s = <<>> THEN x ELSE RunScript(DoAct(x, Head(s)), Tail(s))
+InitAfter(script) ==
+  LET x == RunScript([st |-> [r \in Reps |-> InitSt], know |-> [r \in Reps |-> {}], ops |-> <<>>, snap |-> <<>>], script) IN
+  /\ st = x.st /\ know = x.know /\ ops = x.ops /\ snap = x.snap /\ hist = script
+
 Next == \E r \in Reps : Gen(r) \/ Deliver(r) \/ Redeliver(r) \/ MergeFrom(r) \/ SaveSnap(r) \/ MergeSnap(r)
 
 Spec == Init /\ [][Next]_vars
